@@ -29,6 +29,21 @@ Snapshot(m) == m
 \* Seek(k): first pair with key >= k
 SeekPos(snap, k) == Cardinality({i \in 1..Len(snap) : LexLess(snap[i].k, k)}) + 1
 
+\* the contract's effect of a statement on a store (sequence in key order)
+ApplyStmt(stmt, store) ==
+  LET mp == MapOfSorted(store) IN
+  IF stmt.kind = "put" THEN
+       LET pv == PutVals(stmt) IN
+       IF PutStatus(stmt) # "ok" THEN store
+       ELSE LET sn == Snapshot(MBatchPut(mp, [i \in 1..Len(pv) |-> pv[i].k.s], [i \in 1..Len(pv) |-> pv[i].v.s], 1))
+            IN [i \in 1..Len(sn) |-> [k |-> sn[i].k, v |-> sn[i].v, doc |-> VUnspec]]
+  ELSE IF stmt.kind = "remove" THEN
+       LET rv == RemoveVals(stmt) IN
+       IF RemoveStatus(stmt) # "ok" THEN store ELSE Without(store, [i \in 1..Len(rv) |-> rv[i].s])
+  ELSE IF stmt.kind = "delete" THEN Without(store, DeleteKeys(stmt, store))
+  ELSE store
+
+
 MutatingOps == {"Put", "BatchPut", "Delete", "BatchDelete"}
 ReadOps == {"Get", "Cursor", "Seek", "Next"}
 =============================================================================
